@@ -111,7 +111,7 @@ func registerIntrinsics(e *Engine) {
 				return ConstF64(f(t.F64())), true
 			}
 			p.stub("math." + name)
-			return p.havocF64("math." + name), true
+			return p.ufF64("math."+name, a[0].(*Term)), true
 		}
 	}
 	for n, f := range map[string]func(float64) float64{
@@ -401,6 +401,11 @@ func registerIntrinsics(e *Engine) {
 			return strconv.FormatFloat(f.F64(), byte(ft.C), int(prec.Int()), int(bs.Int())), true
 		}
 		p.stub("strconv.FormatFloat")
+		if ok2 && ok3 {
+			// digits are not modelled; keep format and precision visible so that
+			// two different formatting requests are not mistaken for one another
+			return fmt.Sprintf("<float/%c/%d>", byte(ft.C), int(prec.Int())), true
+		}
 		return "<float>", true
 	}
 	in["strconv.ParseFloat"] = func(p *Path, _ *frame, fn *ssa.Function, a []value) (value, bool) {
@@ -494,6 +499,31 @@ func (p *Path) numError(err error) value {
 	cell := new(value)
 	*cell = structure{ne.Func, ne.Num, inner}
 	return iface{t: types.NewPointer(t), v: cell}
+}
+
+// ufF64 models an unknown but deterministic function of one double: a fresh
+// result per call, tied to the results of earlier calls on this path by
+// functional consistency (equal argument bits => equal result bits).
+func (p *Path) ufF64(name string, arg *Term) *Term {
+	if p.ufCalls == nil {
+		p.ufCalls = map[string][][2]*Term{}
+	}
+	for _, c := range p.ufCalls[name] {
+		if c[0] == arg {
+			return c[1]
+		}
+	}
+	tc := &p.tc
+	res := p.havocF64(name)
+	ab := tc.apply(OFPToBits, BV(64), 0, arg)
+	rb := tc.apply(OFPToBits, BV(64), 0, res)
+	for _, c := range p.ufCalls[name] {
+		cb := tc.apply(OFPToBits, BV(64), 0, c[0])
+		crb := tc.apply(OFPToBits, BV(64), 0, c[1])
+		p.assume(tc.Or(tc.Not(tc.Eq(ab, cb)), tc.Eq(rb, crb)))
+	}
+	p.ufCalls[name] = append(p.ufCalls[name], [2]*Term{arg, res})
+	return res
 }
 
 func (p *Path) havocF64(name string) *Term {
